@@ -458,6 +458,12 @@ def run(tier, seed):
     # malformed documents of each kind, explicitly
     docs += [(T([]), False), (T([("root", ("i", 3))]), False), (T([("root", T([("name", S("a")), ("text", S("t"))]))]), False),
              (("l", []), False), (T([("root", T([("name", S("a")), ("children", ("l", [("i", 1)]))]))]), False)]
+    # adjacent text children whose concatenation forms markup that neither forms alone (`]]>`, `&amp;`, `<!--`, `&#10;`)
+    for parts in [["a]]", ">b"], ["x]", "]>y"], ["]", "]", ">"], ["&", "amp;"], ["&#", "10;"], ["<", "!--"], ["--", ">"], ["<![CDATA[", "]]>"],
+                  ["]]", "&gt;"], ["a", "", "]]", "", ">"]]:
+        for wrap in (lambda t: S(t), lambda t: T([("text", S(t))])):
+            docs.append((T([("root", T([("name", S("r")), ("children", ("l", [wrap(t) for t in parts]))]))]), True))
+        docs.append((T([("root", T([("name", S("r")), ("children", ("l", [S(parts[0])] + [T([("text", S(t))]) for t in parts[1:]]))]))]), True))
     real = C.harness("convert", [{"conv": "xml", "val": V.to_wire(d)} for d, _ in docs])
     sx = [V.to_sexp(d) for d, _ in docs]
     mout = C.model("xml_out", sx) if okm else [None] * len(docs)
